@@ -939,6 +939,9 @@ func (env *SpecEnv) evalNamedCall(name string, x *ast.CallExpr) *Val {
 		return &Val{T: intT, S: "(sl_ref " + arg(0).S + ")"}
 	case "off":
 		return &Val{T: intT, S: "(sl_off " + arg(0).S + ")"}
+	case "contains":
+		// contains(a, b): b occurs in a (byte strings / strings), as strings.Contains
+		return &Val{T: boolT, S: fmt.Sprintf("(seq.contains %s %s)", arg(0).S, arg(1).S)}
 	case "sent":
 		// sent(ch): the last value sent on channel ch
 		v := arg(0)
